@@ -176,11 +176,16 @@ def orderCheck (t : RosTable) (p ph : Nat) (tol : Q) : Bool :=
   let T := toTextbook t
   allWithin tol (residualsUpTo T T.b p) && allWithin tol (residualsUpTo T T.bh ph)
 
-/-- some condition of order `≤ p` (main) resp. `≤ ph` (embedded) is violated by more than `tol`:
-    used with `p = documented order + 1` to show that the documented orders are sharp -/
-def orderFails (t : RosTable) (p ph : Nat) (tol : Q) : Bool :=
+/-- some condition of order `≤ p` is violated by the main method by more than `tol`
+    (used with `p` = documented order + 1 to show that the documented order is sharp) -/
+def mainFails (t : RosTable) (p : Nat) (tol : Q) : Bool :=
   let T := toTextbook t
-  !(allWithin tol (residualsUpTo T T.b p)) && !(allWithin tol (residualsUpTo T T.bh ph))
+  !(allWithin tol (residualsUpTo T T.b p))
+
+/-- some condition of order `≤ ph` is violated by the embedded method by more than `tol` -/
+def embFails (t : RosTable) (ph : Nat) (tol : Q) : Bool :=
+  let T := toTextbook t
+  !(allWithin tol (residualsUpTo T T.bh ph))
 
 /-- the tabulated `alpha_[i]`, `gamma_[i]` are the row sums `Σ_j α_ij`, `Σ_j γ_ij` (within `tol`) -/
 def rowsumCheck (t : RosTable) (tolA tolG : Q) : Bool :=
@@ -202,10 +207,27 @@ def stagesConsistent (t : RosTable) : Bool :=
   t.m.length == s && t.e.length == s && t.newF.length == s &&
   t.alpha.length == s && t.gamma.length == s && t.newF.head? == some true
 
-/-- documented orders `(main, embedded)` of the five sets, in the order of `Gen.tableNames`
-    (header comments: "2 stages, order 2", "3 stages, order 3", "ORDER 4 … EMBEDDED … ORDER 3",
-     "4 stages, order 3", "ORDER 4, WITH 6 STAGES") -/
-def documentedOrders : List (Nat × Nat) := [(2, 1), (3, 2), (4, 3), (3, 2), (4, 3)]
+/-- stiffly accurate structure of the RODAS sets in implementation form (exact equalities):
+    the last row of `A` is `m` without its last entry, `m[s−1] = 1` (so `y_new = Y_s + K_s`), and
+    the error estimate is the last stage increment, `e = (0,…,0,1)` (embedded solution `= Y_s`).
+    This pins the entries of `e` that the order conditions cannot see (for these sets every
+    multiple of `K_s` is an admissible estimator) and implies `R(∞) = 0` exactly. -/
+def stifflyAccurate (t : RosTable) : Bool :=
+  let s := t.stages
+  decide (2 ≤ s) &&
+  (List.range (s - 1)).all (fun j => decide (vget t.a (lt (s - 1) j) = vget t.m j)) &&
+  decide (vget t.m (s - 1) = 1) &&
+  (List.range s).all (fun j => decide (vget t.e j = if j = s - 1 then 1 else 0))
+
+/-- deviation of a two-stage table from the closed forms of `TwoStageRosenbrockParameters()`
+    (`a = 1/g, c = −2/g, m = (3/(2g), 1/(2g)), e = (1/(2g), 1/(2g))`, `g = gamma_[0]`), and the defect
+    `2(g−1)² − 1` of the defining equation of `g = 1 + 1/√2` -/
+def ros2ClosedFormResiduals (t : RosTable) : List Q :=
+  let g := gamma0 t
+  [ vget t.a 0 - 1 / g, vget t.c 0 - (-2) / g,
+    vget t.m 0 - 3 / (2 * g), vget t.m 1 - 1 / (2 * g),
+    vget t.e 0 - 1 / (2 * g), vget t.e 1 - 1 / (2 * g),
+    2 * (g - 1) * (g - 1) - 1 ]
 
 /-- `estimator_of_local_order_` = "the minimum between the main and the embedded scheme orders plus one" -/
 def orderMeaning (t : RosTable) (p ph : Nat) : Bool :=
